@@ -199,12 +199,20 @@ def run_for(prop: str, repo_root: str = "/repo") -> Dict[str, Any]:
         jobs.append(("revert", f"revert {h}: {what[:70]}", h))
     for label, fn in TWINS:
         jobs.append(("twin", label, fn))
+    # behaviour-preserving refactorings written by sub-agents (extract helper, guard clauses, hoisted locals, dispatch
+    # tables ...; /verif/benign/<id>/patch.diff, confirmed by tools/benign_confirm.py): this check must stay silent on all
+    bdir = os.path.join(VERIF, "benign")
+    if os.path.isdir(bdir):
+        for b in sorted(os.listdir(bdir)):
+            pth = os.path.join(bdir, b, "patch.diff")
+            if os.path.exists(pth):
+                jobs.append(("benign", f"benign/{b}", pth))
 
     def one(job):
         kind, label, arg = job
         d = _copy_tree(repo_root)
         try:
-            if kind == "mutant":
+            if kind in ("mutant", "benign"):
                 r = subprocess.run(["git", "apply", "--unsafe-paths", arg], cwd=d, capture_output=True, text=True)
                 if r.returncode:
                     return kind, label, "skipped", "patch does not apply to the current tree"
